@@ -26,6 +26,7 @@ def scratch():
     if _scratch is None:
         base = "/var/tmp"
         _scratch = tempfile.mkdtemp(prefix="verif.", dir=base)
+        os.chmod(_scratch, 0o755)   # C15 runs a child of the harness as an unprivileged user
         atexit.register(lambda: shutil.rmtree(_scratch, ignore_errors=True))
     return _scratch
 
